@@ -3,10 +3,13 @@
      lex <hex text>          -> err | ok <kind>:<hex val> ...           (lex2)
      pty <hex text>          -> lexerr | omit | fail | ok <tref dump> <tokens left>   (parse_ty_bytes)
      trim <hex text>         -> <hex trim_space text>
+     wf <dump>               -> <wf_comb default><wf_comb canonical> <wf2_comb default-bar><wf2_comb canonical-bar>   (hypotheses of C22_roundtrip)
+     parse <hex text>        -> err | ok <dump> ...      (parse2: lex2, then the ParseTL2File model; comments erased)
    <dump> is the S-expression written by overlay/internal/tlast/verif_fmt2_test.go. *)
 open Conv
 open Fmt2Model
 open Fmt2LexModel
+open Fmt2ParseModel
 
 type sx = A of string | L of sx list
 
@@ -85,6 +88,26 @@ and dump_arg = function
   | ANum n -> "(# " ^ dec_of_n n ^ ")"
   | ATy t -> dump_tref t
 
+let b01 b = if b then "1" else "0"
+let dump_field f =
+  " (f " ^ hex_of_bytes f.f_name ^ " " ^ b01 f.f_opt ^ " " ^ b01 f.f_ign ^ " (c " ^ hex_of_bytes f.f_comment ^ ") " ^ dump_tref f.f_type ^ ")"
+let dump_fields fs = String.concat "" (List.map dump_field fs)
+let dump_variant v =
+  " (v " ^ hex_of_bytes v.v_name ^ " (c " ^ hex_of_bytes v.v_comment ^ ") " ^
+  (match v.v_body with VAlias t -> "(a " ^ dump_tref t ^ ")" | VFields fs -> "(f" ^ dump_fields fs ^ ")") ^ ")"
+let dump_def = function
+  | DAlias t -> "(a " ^ dump_tref t ^ ")"
+  | DStruct fs -> "(s" ^ dump_fields fs ^ ")"
+  | DUnion vs -> "(u" ^ String.concat "" (List.map dump_variant vs) ^ ")"
+let dump_comb c =
+  "(C (c " ^ hex_of_bytes c.c_comment ^ ") (A" ^ String.concat "" (List.map (fun a -> " " ^ hex_of_bytes a) c.c_anns) ^ ") " ^
+  (match c.c_decl with
+   | DType (nm, magic, ps, d) ->
+       "(T " ^ dump_name nm ^ " " ^ dec_of_n magic ^ " (P" ^
+       String.concat "" (List.map (fun p -> " (" ^ hex_of_bytes p.tp_name ^ " " ^ b01 p.tp_isnat ^ ")") ps) ^ ") " ^ dump_def d
+   | DFunc (nm, magic, args, d) ->
+       "(F " ^ dump_name nm ^ " " ^ dec_of_n magic ^ " (L" ^ dump_fields args ^ ") " ^ dump_def d) ^ "))"
+
 let first_byte = function [] -> 0 | b :: _ -> int_of_n b
 let is_lc b = b >= 97 && b <= 122
 let kind_of = function
@@ -107,6 +130,18 @@ let run = function
        | Some POmit -> "omit"
        | Some PFail -> "fail"
        | Some (POk (t, rest)) -> "ok " ^ dump_tref t ^ " " ^ string_of_int (List.length rest))
+  | "wf" :: d ->
+      (match combs_of d with
+       | [c] ->
+           let b x = if x then "1" else "0" in
+           b (Fmt2PrintProofs.wf_comb default_options c) ^ b (Fmt2PrintProofs.wf_comb canonical_options c) ^ " " ^
+           b (Fmt2ParseProofs.wf2_comb (Fmt2PrintProofs.comb_bar default_options c) c) ^
+           b (Fmt2ParseProofs.wf2_comb (Fmt2PrintProofs.comb_bar canonical_options c) c)
+       | _ -> bad "op (one combinator expected)")
+  | ["parse"; h] ->
+      (match parse2 (bytes_of_hex h) with
+       | None -> "err"
+       | Some cs -> String.concat " " ("ok" :: List.map dump_comb cs))
   | ["trim"; h] -> hex_of_bytes (trim_space (bytes_of_hex h))
   | l -> "driver-error unknown op " ^ (match l with x :: _ -> x | [] -> "")
 
